@@ -186,6 +186,9 @@ pub enum SigKind {
     In(InVal),
     Out,
     Bidir(InVal),
+    /// A virtual signal that is already part of the signal list handed to `with_signals`
+    /// (taken from another TestCase's public `signals`), with its declared expression
+    Virtual(Expr),
 }
 
 #[derive(Clone, Debug, PartialEq, Eq, Hash, Serialize, Deserialize)]
@@ -203,9 +206,9 @@ impl Sig {
         matches!(self.kind, SigKind::Out | SigKind::Bidir(_))
     }
     pub fn default(&self) -> Option<InVal> {
-        match self.kind {
-            SigKind::In(d) | SigKind::Bidir(d) => Some(d),
-            SigKind::Out => None,
+        match &self.kind {
+            SigKind::In(d) | SigKind::Bidir(d) => Some(*d),
+            SigKind::Out | SigKind::Virtual(_) => None,
         }
     }
 }
@@ -229,13 +232,17 @@ pub enum ValueFn {
     /// Explicit table: values[call % len][position in layout]
     Table(Vec<Vec<OutVal>>),
     /// Feedback device modelled on tests/data/Counter.dig: inputs named by index
-    /// (clk, reset), outputs (count, tc). Counts rising clock edges modulo `modulus`.
+    /// (clk, reset), outputs (count, tc). On a rising clock edge: reset or count == modulus-1
+    /// -> 0, else count+1 (wrapping at the register width), as in tests/data/Counter.v.
     Counter {
         clk: usize,
         rst: Option<usize>,
         out: usize,
         tc: Option<usize>,
         modulus: i64,
+        /// power-on value of the register and its width mask (Counter.v: 11, 15)
+        init: i64,
+        mask: i64,
     },
     /// `done` output becomes 1 from call number `after` on; all other outputs unique.
     DoneAfter { done: usize, after: usize, salt: u64 },
